@@ -58,7 +58,10 @@ MANIFEST = dict(
         "fold sizes, class balance, per-fold batch count / batch sizes (ceil, <= max, differ by <= 1), requested fold, recreation indices, shapes, "
         "repeated access, weights stay with their elements. A third harness binary built WITHOUT NDEBUG runs the corpus and a sample of the "
         "histories with the assertions of the real code (SIZE_CHECK / SHARK_ASSERT / RANGE_CHECK) active."),
-  note=TRUST + "tied by correspondence only (no theorem): subBatch's gather is modelled as picking the elements before the dealing loop runs; "
+  note=TRUST + "modelling shortcut: subBatch's gather is modelled as picking the elements before the dealing loop runs; for well-formed datasets, "
+       "existing positions and fold numbers below k this is proved equal to dealing the positions and gathering every completed batch "
+       "(deal_positions_then_gather, pick_chunks), outside that domain both are undefined and only the correspondence ties them; "
+       "tied by correspondence only (no theorem): "
        "SharedContainer::repartition / reorderElements inside createCVSameSize are the C03 models (their loops are proved in C03); sharing of batches between a CVFolds object and the dataset it was built from is not modelled "
        "(the harness makes subsets independent before repartitioning them, as the documentation demands); the RNG itself is not modelled (every "
        "theorem holds for all permutations / draws; observed draws are checked against the admissibility relation). createCVSameSizeBalanced: class "
